@@ -812,6 +812,8 @@ class Parser(ExprParser):
             node.parameters.append(TemplateParam(name))
             if not self.have("COMMA"):
                 break
+            if self.token.typ == "GT":
+                self.error_msg("Expected template parameter after ','")
         self.mustbe("GT")
 
         if self.token.typ == "CLASS":
